@@ -197,6 +197,10 @@ def run(scn, keep_log=False):
         res.initial = rec.dump()
         fe = frontends.make_frontend(scn['frontend'], k, sctx, scn['framing'], scn.get('opts'))
         fe.start()
+        if (scn.get('opts') or {}).get('custom_fc'):
+            # what StartTcpServer(custom_functions=[...]) and its siblings do with an application-defined function
+            from harness import custom
+            fe.server.decoder.register(custom.classes()[0])
         # observation proxy on the decoder the handlers will use
         proxy = RecordingDecoder(fe.server.decoder, rec)
         fe.server.decoder = proxy
